@@ -224,6 +224,7 @@ struct World {
     detached: Vec<Option<Node>>,
     nclones: u32,
     clone_id: u32,
+    order: Vec<u32>, // ids in the order the collector marked them (table iteration order)
     real_abort: bool, // child mode: really perform calls that abort the process
     aborted: bool,
 }
@@ -284,6 +285,7 @@ fn sink(e: Event) {
         }
         Event::Mark(p) => {
             let id = id_of(w, p);
+            w.order.push(id);
             if id != 0 {
                 w.objs[id as usize].vinit = false;
                 w.objs[id as usize].linit = false;
@@ -361,6 +363,7 @@ fn reset_world(w: &mut World) {
 
 fn reset_counters(w: &mut World) {
     w.nclones = 0;
+    w.order.clear();
     w.ntrace = 0;
     w.ntrace1 = 0;
     w.npop = 0;
@@ -524,7 +527,7 @@ fn line_ret(w: &mut World, op: &Op, ret: &str, panicked: bool, seen: &str) {
     let mut s = std::mem::take(&mut w.out);
     let _ = write!(
         s,
-        "{{\"k\":\"ret\",\"op\":\"{}\",\"a\":{},\"b\":{},\"d\":{{\"op\":\"{}\",\"x\":{},\"y\":{}}},\"ret\":\"{}\",\"panic\":{},\"depth\":{},\"cnt\":{{\"ntrace\":{},\"npop\":{},\"nvisit\":{},\"nmember\":{},\"nalloc\":{},\"maxdepth\":{},\"ntrace1\":{},\"nalloc1\":{},\"nclones\":{}}},\"seen\":{},\"obs\":",
+        "{{\"k\":\"ret\",\"op\":\"{}\",\"a\":{},\"b\":{},\"d\":{{\"op\":\"{}\",\"x\":{},\"y\":{}}},\"ret\":\"{}\",\"panic\":{},\"depth\":{},\"cnt\":{{\"ntrace\":{},\"npop\":{},\"nvisit\":{},\"nmember\":{},\"nalloc\":{},\"maxdepth\":{},\"ntrace1\":{},\"nalloc1\":{},\"nclones\":{},\"order\":{:?}}},\"seen\":{},\"obs\":",
         op.op,
         op.a,
         op.b,
@@ -543,6 +546,7 @@ fn line_ret(w: &mut World, op: &Op, ret: &str, panicked: bool, seen: &str) {
         w.ntrace1,
         unsafe { track::ALLOCS_TOP },
         w.nclones,
+        w.order,
         seen
     );
     obs_json(w, &mut s);
@@ -1345,11 +1349,24 @@ fn drive_script(rng: &mut SmallRng, len: usize, nobj: u32, profile: &str, script
     let mut scripted = 0u32;
     let cons: &[&str] = &["TryUnwrap", "GetMut", "MakeMut", "MakeMut", "IntoRaw", "FromRaw", "IncStrong", "DecStrong", "DropDetached", "TryUnwrap"];
     let mut done: Vec<Op> = Vec::new();
-    let build: &[&str] = &["New", "New", "CloneRoot", "CloneRoot", "AdoptStore", "AdoptStore", "AdoptStore", "Store", "CloneStored", "Adopt", "AdoptSame"];
-    let mix: &[&str] = &["CloneRoot", "CloneStored", "DropRoot", "DropRoot", "Store", "Take", "DropStored", "Adopt", "Unadopt", "AdoptSame",
-        "UnadoptSame", "AdoptStore", "TakeUnadopt", "TakeUnadopt", "New"];
+    let order = profile == "order";
+    let build: &[&str] = if order {
+        &["New", "New", "CloneRoot", "CloneRoot", "AdoptStore", "AdoptStore", "AdoptStore"]
+    } else {
+        &["New", "New", "CloneRoot", "CloneRoot", "AdoptStore", "AdoptStore", "AdoptStore", "Store", "CloneStored", "Adopt", "AdoptSame"]
+    };
+    let mix: &[&str] = if order {
+        &["CloneRoot", "DropRoot", "DropRoot", "AdoptStore", "AdoptStore", "TakeUnadopt", "New", "Downgrade", "Upgrade"]
+    } else {
+        &["CloneRoot", "CloneStored", "DropRoot", "DropRoot", "Store", "Take", "DropStored", "Adopt", "Unadopt", "AdoptSame",
+        "UnadoptSame", "AdoptStore", "TakeUnadopt", "TakeUnadopt", "New"]
+    };
     let wk: &[&str] = &["Downgrade", "Downgrade", "Upgrade", "UpgradeStored", "WeakClone", "WeakDrop", "StoreWeak", "TakeWeak"];
-    let tear: &[&str] = &["DropRoot", "DropRoot", "DropRoot", "DropStored", "TakeUnadopt", "WeakDrop", "Upgrade"];
+    let tear: &[&str] = if order {
+        &["DropRoot", "DropRoot", "DropRoot", "TakeUnadopt", "WeakDrop", "Upgrade"]
+    } else {
+        &["DropRoot", "DropRoot", "DropRoot", "DropStored", "TakeUnadopt", "WeakDrop", "Upgrade"]
+    };
     let mut step = 0usize;
     let mut attempts = 0usize;
     while step < len && attempts < len * 30 {
@@ -1427,8 +1444,15 @@ fn drive_script(rng: &mut SmallRng, len: usize, nobj: u32, profile: &str, script
         if exec(w, &op, None, true).is_none() {
             continue;
         }
+        done.push(op.clone());
+        unsafe {
+            if let Some(p) = &CUR_PATH {
+                // the script in progress, on disk before the call: if the library kills the
+                // process the parent finds the history that did it
+                let _ = std::fs::write(p, op_json(&done));
+            }
+        }
         top_call(w, &op);
-        done.push(op);
         step += 1;
         let w = world();
         if !w.ub.is_empty() || unsafe { track::NDOUBLE > 0 } || w.aborted {
@@ -1465,6 +1489,8 @@ fn op_json(ops: &[Op]) -> String {
     s
 }
 
+static mut CUR_PATH: Option<String> = None;
+
 fn cmd_drive(args: &[String]) {
     // drive <seed> <nscripts> <len> <nobj> <profile> <scripts-out> <trace-out>
     let seed: u64 = args[0].parse().unwrap();
@@ -1474,10 +1500,18 @@ fn cmd_drive(args: &[String]) {
     let profile = args[4].clone();
     let mut sout = BufWriter::new(std::fs::File::create(&args[5]).expect("scripts out"));
     let mut tout = BufWriter::new(std::fs::File::create(&args[6]).expect("trace out"));
+    unsafe {
+        CUR_PATH = Some(format!("{}.cur", args[5]));
+    }
     let mut rng = SmallRng::seed_from_u64(seed);
+    let layouts: u64 = args.get(7).and_then(|s| s.parse().ok()).unwrap_or(1);
     for n in 0..nscripts {
         let ops = drive_script(&mut rng, len, nobj, &profile, n, 0, &mut tout);
         writeln!(sout, "{}", op_json(&ops)).unwrap();
+        // the same history again under other heap layouts (C09)
+        for l in 1..layouts {
+            run_script(&ops, n, l, &mut tout);
+        }
         tout.flush().unwrap();
     }
     eprintln!("drove {} scripts, {} lines", nscripts, world().lines);
@@ -1514,62 +1548,86 @@ fn scale_one(shape: &str, n: usize, sink_on: bool) -> String {
         SCALE = ScaleCnt::default();
     }
     let mk = |id: usize| Rc::new(Node { id: id as u32, canary: MAGIC ^ id as u64, strong: RefCell::new(Vec::new()), weak: RefCell::new(Vec::new()) });
-    let nodes: Vec<Rc<Node>> = (1..=n).map(mk).collect();
-    let mut links = 0usize;
-    let mut edge = |a: usize, b: usize, links: &mut usize| {
-        let h = Rc::clone(&nodes[b]);
-        unsafe {
-            Rc::adopt_unchecked(&nodes[a], &h);
-        }
-        nodes[a].strong.borrow_mut().push(SH { h: ManuallyDrop::new(h), owner: 0, target: 0 });
-        *links += 1;
-    };
+    let mut nodes: Vec<Option<Rc<Node>>> = (1..=n).map(|i| Some(mk(i))).collect();
+    let ptrs: Vec<*const Node> = nodes.iter().map(|h| Rc::as_ptr(h.as_ref().unwrap())).collect();
+    // a borrowed handle to node a that owns no count
+    let tmp = |a: usize| ManuallyDrop::new(unsafe { Rc::from_raw(ptrs[a]) });
+    let mut edges: Vec<(usize, usize)> = Vec::new();
     match shape {
         "ring" => {
             for i in 0..n {
-                edge(i, (i + 1) % n, &mut links);
+                edges.push((i, (i + 1) % n));
             }
         }
         "chords" => {
             for i in 0..n {
-                edge(i, (i + 1) % n, &mut links);
+                edges.push((i, (i + 1) % n));
                 if i % 3 == 0 {
-                    edge(i, (i * 7 + 5) % n, &mut links);
+                    edges.push((i, (i * 7 + 5) % n));
                 }
                 if i % 5 == 0 {
-                    edge(i, i, &mut links); // self-adoption through a clone
-                }
-                if i % 11 == 0 {
-                    unsafe {
-                        Rc::adopt_unchecked(&nodes[i], &nodes[i]); // same-handle self-adoption
-                    }
+                    edges.push((i, i)); // self-adoption through a clone
                 }
             }
         }
         "wheel" => {
             // hub 0 adopts every rim node, rim nodes form a ring and adopt the hub back
             for i in 1..n {
-                edge(0, i, &mut links);
-                edge(i, if i + 1 < n { i + 1 } else { 1 }, &mut links);
-                edge(i, 0, &mut links);
+                edges.push((0, i));
+                edges.push((i, if i + 1 < n { i + 1 } else { 1 }));
+                edges.push((i, 0));
             }
         }
         "clique" => {
             for i in 0..n {
                 for j in 0..n {
                     if i != j {
-                        edge(i, j, &mut links);
+                        edges.push((i, j));
                     }
                 }
             }
         }
         _ => {}
     }
-    let weak0 = Rc::downgrade(&nodes[0]);
-    let weakl = Rc::downgrade(&nodes[n - 1]);
-    let mut it = nodes.into_iter();
-    let keep = it.next().unwrap();
-    drop(it); // all other outside handles
+    let links = edges.len();
+    // Each node except node 0 gives its ORIGINAL handle to one incoming edge, so that no
+    // outside handle has to be dropped (and traced) one by one before the measured drop.
+    let mut carrier = vec![usize::MAX; n];
+    for (k, &(_, b)) in edges.iter().enumerate() {
+        if b != 0 && carrier[b] == usize::MAX {
+            carrier[b] = k;
+        }
+    }
+    let store = |a: usize, h: Rc<Node>| {
+        let this = tmp(a);
+        unsafe {
+            Rc::adopt_unchecked(&*this, &h);
+            (*ptrs[a]).strong.borrow_mut().push(SH { h: ManuallyDrop::new(h), owner: 0, target: 0 });
+        }
+    };
+    for (k, &(a, b)) in edges.iter().enumerate() {
+        if carrier[b] != k {
+            let h = Rc::clone(&*tmp(b));
+            store(a, h);
+        }
+    }
+    if shape == "chords" {
+        for i in (0..n).step_by(11) {
+            let this = tmp(i);
+            unsafe {
+                Rc::adopt_unchecked(&*this, &*this); // same-handle self-adoption (no effect)
+            }
+        }
+    }
+    for (k, &(a, b)) in edges.iter().enumerate() {
+        if carrier[b] == k {
+            let h = nodes[b].take().unwrap();
+            store(a, h);
+        }
+    }
+    let keep = nodes[0].take().unwrap();
+    let weak0 = Rc::downgrade(&keep);
+    let weakl = Rc::downgrade(&*tmp(n - 1));
     unsafe {
         SCALE = ScaleCnt::default();
         SCALE.quiet_hdrop = true;
